@@ -57,11 +57,12 @@ inductive ETok where
   | s (t : PS.STok)
   deriving DecidableEq, Repr
 
-/-- placeholders substituted by `search.format_as_spec()` -/
-def printE : Expr → List ETok
+/-- placeholders substituted by `search.format_as_spec()`; `pb`: the base of a `[…]` / `{…}` group is
+    parenthesised unless it is a plain non-terminal (`format_as_base`, fix 9a10ad80) -/
+def printE (pb : Bool) : Expr → List ETok
   | [] => []
-  | .code c :: r => .code c :: printE r
-  | .sel t :: r => (PS.printTop t).map .s ++ printE r
+  | .code c :: r => .code c :: printE pb r
+  | .sel t :: r => (PS.printTop pb t).map .s ++ printE pb r
 
 /-- end of a run of selector tokens -/
 def flushE (cur : List PS.STok) : Option Expr :=
@@ -116,14 +117,14 @@ inductive CBT where
   | range (lo hi : Option BoundT)
   deriving DecidableEq, Repr
 
-def printB : Bound → BoundT
+def printB (pb : Bool) : Bound → BoundT
   | .num n => .num n
-  | .expr e => .expr (printE e)
+  | .expr e => .expr (printE pb e)
 
 /-- `RepetitionBoundsConstraint.format_bounds_as_spec` -/
-def printCB : CB → CBT
-  | .single e => .single (printE e)
-  | .range lo hi => .range (some (printB lo)) (hi.map printB)
+def printCB (pb : Bool) : CB → CBT
+  | .single e => .single (printE pb e)
+  | .range lo hi => .range (some (printB pb lo)) (hi.map (printB pb))
 
 def readB : BoundT → Option Bound
   | .num n => some (.num n)
@@ -230,22 +231,25 @@ structure PrintCfg where
   starTok : PTok
   plusTok : PTok
   optTok : PTok
+  /-- selectors: `ItemSearch` / `SelectiveSearch.format_as_spec` print their base through
+      `format_as_base` (in parentheses unless it is a plain non-terminal; fix 9a10ad80) -/
+  parenSelBase : Bool
   deriving DecidableEq, Repr
 
 /-- the printer of the current code (after ec9ecf03) -/
 def PrintCfg.fixed (cap : Nat) : PrintCfg :=
   { altParens := true, parenCat := true, parenRep := true, parenAlt := false, openBound := true, cap := cap,
-    starTok := .star, plusTok := .plus, optTok := .quest }
+    starTok := .star, plusTok := .plus, optTok := .quest, parenSelBase := true }
 
 /-- the printer before ec9ecf03: operands never parenthesised, open bounds printed with the cap -/
 def PrintCfg.preFix (cap : Nat) : PrintCfg :=
   { altParens := true, parenCat := false, parenRep := false, parenAlt := false, openBound := false, cap := cap,
-    starTok := .star, plusTok := .plus, optTok := .quest }
+    starTok := .star, plusTok := .plus, optTok := .quest, parenSelBase := false }
 
 /-- the choices under which `read ∘ print` is the identity up to `norm` -/
 def PrintCfg.Sound (c : PrintCfg) : Prop :=
   c.altParens = true ∧ c.parenCat = true ∧ c.parenRep = true ∧ c.parenAlt = false ∧ c.openBound = true
-    ∧ c.starTok = .star ∧ c.plusTok = .plus ∧ c.optTok = .quest
+    ∧ c.starTok = .star ∧ c.plusTok = .plus ∧ c.optTok = .quest ∧ c.parenSelBase = true
 
 instance (c : PrintCfg) : Decidable c.Sound := by unfold PrintCfg.Sound; exact inferInstance
 
@@ -287,7 +291,7 @@ def print (c : PrintCfg) : ENode → List PTok
   | .rep _ k n mn mx =>
     (if needsParen c n then .lp :: (print c n ++ [.rp]) else print c n) ++ [suffixTok c k mn mx]
   | .crep _ n b =>
-    (if needsParen c n then .lp :: (print c n ++ [.rp]) else print c n) ++ [.repC (printCB b)]
+    (if needsParen c n then .lp :: (print c n ++ [.rp]) else print c n) ++ [.repC (printCB c.parenSelBase b)]
 /-- `" | ".join(…)` -/
 def printAlts (c : PrintCfg) : List ENode → List PTok
   | [] => []
@@ -537,7 +541,7 @@ structure RuleText where
   deriving Repr
 
 def printRule (c : PrintCfg) (r : Rule) : RuleText :=
-  ⟨r.name, print c r.rhs, r.gen.map printE⟩
+  ⟨r.name, print c r.rhs, r.gen.map (printE c.parenSelBase)⟩
 
 def readRule (cap : Nat) (t : RuleText) : Option Rule :=
   match read cap t.rhs, (match t.gen with | none => some none | some g => (readE g).map some) with
